@@ -782,11 +782,17 @@ HighPriorityASDUQueue_enqueue(HighPriorityASDUQueue self, CS101_ASDU asdu)
     }
 
     if (nextMsgPtr + entrySize > self->buffer + self->size) {
-        nextMsgPtr = self->buffer;
-        self->lastInBufferEntry = self->lastEntry;
+        if ((self->entryCounter > 0) && (self->lastEntry < self->firstEntry)) {
+            /* the ring has wrapped already: the entries at the buffer start are still queued */
+            enqueued = false;
+        }
+        else {
+            nextMsgPtr = self->buffer;
+            self->lastInBufferEntry = self->lastEntry;
+        }
     }
 
-    if (self->entryCounter > 0) {
+    if (enqueued && (self->entryCounter > 0)) {
         if (nextMsgPtr <= self->firstEntry) {
             if (nextMsgPtr + entrySize > self->firstEntry) {
                 enqueued = false;
